@@ -21,8 +21,80 @@ type Locker = orig.Locker
 
 var NewCond = orig.NewCond
 
+// durable is the lock used when no scheduler is active. Waiting happens on a channel, so a
+// goroutine that waits for a lock inside a testing/synctest bubble is *durably* blocked and
+// virtual time can advance while another goroutine holds the lock across a sleep (a real
+// sync.Mutex wait would stall the bubble's clock for good). Writers have preference, as with
+// sync.RWMutex.
+type durable struct {
+	mu       orig.Mutex // guards the fields below, never held while blocking
+	writer   bool
+	readers  int
+	pendingW int
+	waiters  []chan struct{}
+}
+
+func (d *durable) wake() {
+	for _, c := range d.waiters {
+		close(c)
+	}
+	d.waiters = nil
+}
+
+func (d *durable) wait() {
+	c := make(chan struct{})
+	d.waiters = append(d.waiters, c)
+	d.mu.Unlock()
+	<-c
+	d.mu.Lock()
+}
+
+func (d *durable) lock() {
+	d.mu.Lock()
+	d.pendingW++
+	for d.writer || d.readers > 0 {
+		d.wait()
+	}
+	d.pendingW--
+	d.writer = true
+	d.mu.Unlock()
+}
+
+func (d *durable) unlock() {
+	d.mu.Lock()
+	d.writer = false
+	d.wake()
+	d.mu.Unlock()
+}
+
+func (d *durable) rlock() {
+	d.mu.Lock()
+	for d.writer || d.pendingW > 0 {
+		d.wait()
+	}
+	d.readers++
+	d.mu.Unlock()
+}
+
+func (d *durable) runlock() {
+	d.mu.Lock()
+	d.readers--
+	d.wake()
+	d.mu.Unlock()
+}
+
+func (d *durable) trylock() bool {
+	d.mu.Lock()
+	defer d.mu.Unlock()
+	if d.writer || d.readers > 0 {
+		return false
+	}
+	d.writer = true
+	return true
+}
+
 type Mutex struct {
-	real orig.Mutex
+	real durable
 	held bool
 	used bool // ever used under the scheduler: from then on only the model state counts
 }
@@ -38,7 +110,7 @@ func (m *Mutex) Lock() {
 		m.held = true
 		return
 	}
-	m.real.Lock()
+	m.real.lock()
 }
 
 func (m *Mutex) Unlock() {
@@ -46,7 +118,7 @@ func (m *Mutex) Unlock() {
 		m.held = false
 		return
 	}
-	m.real.Unlock()
+	m.real.unlock()
 }
 
 func (m *Mutex) TryLock() bool {
@@ -58,11 +130,11 @@ func (m *Mutex) TryLock() bool {
 		m.held = true
 		return true
 	}
-	return m.real.TryLock()
+	return m.real.trylock()
 }
 
 type RWMutex struct {
-	real    orig.RWMutex
+	real    durable
 	w       bool
 	readers int
 	pending int
@@ -83,7 +155,7 @@ func (m *RWMutex) Lock() {
 		m.w = true
 		return
 	}
-	m.real.Lock()
+	m.real.lock()
 }
 
 func (m *RWMutex) Unlock() {
@@ -91,7 +163,7 @@ func (m *RWMutex) Unlock() {
 		m.w = false
 		return
 	}
-	m.real.Unlock()
+	m.real.unlock()
 }
 
 func (m *RWMutex) RLock() {
@@ -105,7 +177,7 @@ func (m *RWMutex) RLock() {
 		m.readers++
 		return
 	}
-	m.real.RLock()
+	m.real.rlock()
 }
 
 func (m *RWMutex) RUnlock() {
@@ -115,7 +187,7 @@ func (m *RWMutex) RUnlock() {
 		}
 		return
 	}
-	m.real.RUnlock()
+	m.real.runlock()
 }
 
 func (m *RWMutex) RLocker() Locker { return (*rlocker)(m) }
